@@ -304,11 +304,11 @@ def _one(res, case, L, t, partT, partB, strand, axis, key, oname, tdim, order, d
     ids, _ = T.transform_ids(o, d)
     subs = expect.resolved_subtotals(o, d, tdim)
     got = read(partT, oname)
-    if not res.check("order_readable", got.ok, "exception/%s" % oname,
-                     {"exc": repr(got.exc), "order": order}):
-        return False
-    gorder = [int(x) for x in got.value]
     vals = _values(res, o, strand, axis, order, partB, d, od, trB, okey)
+    if vals != "skip" and not res.check("order_readable", got.ok, "exception/%s" % oname,
+                                        {"exc": repr(got.exc), "order": order}):
+        return False
+    gorder = [int(x) for x in got.value] if got.ok else []
     if vals == "skip":
         res.skipped["not_modelled_or_undefined_measure"] += 1
         return False
@@ -373,12 +373,14 @@ def _subtotals_pruned(case, okey):
 
 def _monotone(res, vals, idxs, descending, monitor, what, payload_positions, order):
     """Non-NaN values monotone (non-strict), NaN-valued ones last in payload order."""
+    kw = order.get("measure") or order.get("marginal") or order.get("type")
     nan_flags = [_is_nan(v) for v in vals]
     first_nan = nan_flags.index(True) if True in nan_flags else len(vals)
-    res.check("nan_last", all(nan_flags[first_nan:]), "%s/nan_not_last" % what,
+    res.check("nan_last", all(nan_flags[first_nan:]), "%s/nan_not_last/%s" % (what, kw),
               {"values": snap(vals), "idxs": idxs, "order": order})
     nan_idxs = [i for i, f in zip(idxs, nan_flags) if f]
-    res.check("nan_last", nan_idxs == sorted(nan_idxs), "%s/nan_not_in_payload_order" % what,
+    res.check("nan_last", nan_idxs == sorted(nan_idxs),
+              "%s/nan_not_in_payload_order/%s" % (what, kw),
               {"idxs": idxs, "nan_idxs": nan_idxs})
     fin = [v for v, f in zip(vals, nan_flags) if not f]
     ok = True
